@@ -192,6 +192,8 @@ def run(case, ctx, rng):
             c = h.padmethod.bitcnt
             h.update(M[B:2 * B])
             r3 = call(h.update, M[:B + 3])
+            if not name.startswith('blake2'):
+                r4 = call(lambda: h.update(M[2 * B:], bitlen=8, padding=True))      # total-relative bit length below what was fed: refused
             return h.update(M[2 * B:], padding=True), c, (is_exc(r1), is_exc(r3))
         got = call(run_)
         det = dict(h=name, lenM=len(M))
